@@ -264,6 +264,22 @@ def F40():
     return before != after, f"g(Sequence) before / after registering g(x: type[int]): {before!r} / {after!r}"
 
 
+def F43():
+    """C09: recurse inside a class body defined in the method raises NameError (the planted names are class-private there)."""
+    @ovld
+    def f(xs: list):
+        class K:
+            val = recurse(xs[0])
+        return K.val
+
+    @ovld
+    def f(x: int):
+        return x + 1
+
+    r = outcome(lambda: f([1, 2]))
+    return r != 2, f"f([1, 2]) with `class K: val = recurse(xs[0])` in the method -> {str(r)[:90]}"
+
+
 def F38():
     """C12: a union / an intersection against a value-dependent type does not compare to mirror-image answers."""
     from ovld.mro import typeorder
@@ -510,7 +526,7 @@ def F20():
 
 
 ALL = ["F01", "F02", "F03", "F04", "F05", "F06", "F07", "F08", "F09", "F10", "F11",
-       "F12", "F13", "F14", "F15", "F16", "F17", "F18", "F19", "F20", "F21", "F22", "F29", "F33", "F38", "F39", "F40"]
+       "F12", "F13", "F14", "F15", "F16", "F17", "F18", "F19", "F20", "F21", "F22", "F29", "F33", "F38", "F39", "F40", "F43"]
 
 if __name__ == "__main__":
     ids = sys.argv[1:] or ALL
